@@ -145,6 +145,10 @@ fn main() {
         // plus the remaining ELF kinds for single-function inputs
         specs.extend(input_family(true).into_iter().filter(|s| s.templates.len() == 1 && (s.elf == ElfKind::ExecMin || s.arch == "arm")));
     }
+    if let Some(f) = cli_run::dev_filter() {
+        specs.retain(|s| s.label().contains(&f));
+        ctx.cap_hit(&format!("VERIF_CLI_ONLY={f}: only {} inputs explored", specs.len()));
+    }
     let sels: [Vec<String>; 2] = [vec![], vec!["--partial".to_string(), all_names()]];
     par_for(specs.len() as u64 * 2, 1, |i| {
         let spec = &specs[(i / 2) as usize];
